@@ -3,7 +3,7 @@ import re
 from ..engines import e1_panic
 from ..lib.cfgq import dominating_guards, switch_edges, natural_loops
 from ..lib.facts import is_callee, callee_fn, sp_str
-from ..lib.trace import Tracer, canon, strip, walk
+from ..lib.trace import Tracer, canon, canon_full, strip, walk
 
 LEVEL_TEXT = ("Shape analysis of the one traversal (MIR of parse_error.rs): first/all/into_first/into_all all run find_errors with first_only = "
               "true/false/true/false; inside it the walk is the fixed pre-order state machine: a node is reported iff is_error() or "
@@ -16,6 +16,7 @@ LEVEL_TEXT = ("Shape analysis of the one traversal (MIR of parse_error.rs): firs
               "relative to the node's start; the pretty form uses character columns; no undischarged panic site in parse_error.rs.")
 LEVEL_NOTE = ("Not decided: that the walk returns exactly the outermost nodes in document order for all trees (a loop invariant over "
               "tree-sitter's cursor API would be needed) and the cited line/column values.  Trusted: TreeCursor navigation semantics.")
+LEVEL_TEXT += (' Excerpt::from_source stores the row and start column it was given (only the end column is clamped to the line).')
 
 WITNESSES = ["W4"]
 
@@ -247,6 +248,55 @@ def entry_points(prog, rep):
             rep.check(re.match(pat, r) is not None, "C18.E", "ParseError::%s result" % nm, fl[0].loc(), r[:80], "%s returns %s" % (nm, r[:120]))
 
 
+def split_alts(text):
+    """top-level alternatives of a canon `phi(a | b)` body"""
+    out, depth, cur = [], 0, ""
+    i = 0
+    while i < len(text):
+        ch = text[i]
+        if ch in "([{":
+            depth += 1
+        elif ch in ")]}":
+            depth -= 1
+        if depth == 0 and text[i:i + 3] == " | ":
+            out.append(cur)
+            cur = ""
+            i += 3
+            continue
+        cur += ch
+        i += 1
+    out.append(cur)
+    return out
+
+
+def first_line_loops(body, tr):
+    """loops `for c in self.source[node.byte_range()].chars()` whose only exits are the exhausted iterator and `c == '\n'`;
+    returns the canon text of the loop item for each"""
+    from ..lib.cfgq import natural_loops
+    out = []
+    for h, bl in natural_loops(body):
+        item = None
+        exits_ok = True
+        for b in sorted(bl):
+            for g in switch_edges(body, tr, b):
+                c = canon_full(g.cond)
+                if g.dst in bl:
+                    continue
+                if re.match(r"^Iterator::next\(&IntoIterator::into_iter\(str::chars\(&\*Index::index\(&\*\*arg:self\.source, Node::byte_range\(", c) and g.variant == "None":
+                    item = "(%s as Some).0" % c
+                elif re.match(r"^\(\(Iterator::next\(.*\) as Some\)\.0 Eq '\\n'\)$", c) and g.value is True:
+                    pass
+                elif body.blocks[g.dst]["term"]["k"] in ("return",) or True:
+                    # a failed write (`?`) leaves too: only value-dependent exits matter here
+                    if not c.startswith("Try::branch("):
+                        exits_ok = False
+        if item and exits_ok:
+            nl = any(canon_full(g.cond) == "(%s Eq '\\n')" % item and g.value is True and g.dst not in bl for b in sorted(bl) for g in switch_edges(body, tr, b))
+            if nl:
+                out.append(item)
+    return out
+
+
 def run(prog, rep):
     traversal(prog, rep)
     entry_points(prog, rep)
@@ -294,6 +344,17 @@ def run(prog, rep):
             not any(is_callee(t, r"Iterator::count$") for b, t in f.body.calls())
         src = canon(tr.operand(sums[0][1]["args"][0])) if sums else ""
         ok = ok and re.match(r"^Iterator::map\(Iterator::take_while\(str::chars\(&\*Index::index\(&\*\*arg:self\.source, Node::byte_range\(", src) is not None
+        if not sums:
+            # the explicit-loop form: `for c in source[node.byte_range()].chars() { if c == '\n' { break } k += c.len_utf8() }`
+            fl_ = first_line_loops(f.body, tr)
+            for b, t in f.body.calls():
+                if is_callee(t, r"Index::index$|Index<I>>::index$"):
+                    rng = canon_full(strip(tr.operand(t["args"][1])))
+                    m = re.match(r"^ops::Range::Range\{Node::start_byte\((.*)\), \(Node::start_byte\((.*)\) AddWithOverflow phi\((.*)\)\)\.0\}$", rng)
+                    if m and m.group(1) == m.group(2) and fl_:
+                        alts = sorted(split_alts(m.group(3)))
+                        ok = len(alts) == 2 and alts[0] == "(rec AddWithOverflow methods::len_utf8(%s)).0" % fl_[0] and alts[1] == "0_usize"
+                        src = "loop over chars of the node text: k += len_utf8(c) until '\\n'"
         rep.check(ok, "C18.D", "plain display :: byte length of the first line", f.loc(), "sum(len_utf8) over chars().take_while(!= '\\n') of source[node.byte_range()]",
                   "the cut length of the plain display is not a UTF-8 byte length of the node's first line: %s" % src[:160])
     else:
@@ -305,12 +366,37 @@ def run(prog, rep):
         cnt = [(b, t) for b, t in f.body.calls() if is_callee(t, r"Iterator::count$")]
         ex = [(b, t) for b, t in f.body.calls() if is_callee(t, r"Excerpt::<'a>::from_source$")]
         ok = len(cnt) == 1 and len(ex) == 1
-        if ok:
+        if not cnt and len(ex) == 1 and first_line_loops(f.body, tr):
+            # explicit-loop form: end column = start column + one per character of the first line
+            rng = canon_full(strip(tr.operand(ex[0][1]["args"][3])))
+            m = re.match(r"^ops::Range::Range\{(Node::start_position\(.*\)\.column), phi\((.*)\)\}$", rng)
+            row = canon(strip(tr.operand(ex[0][1]["args"][2])))
+            ok = m is not None and sorted(split_alts(m.group(2))) == sorted(["(rec AddWithOverflow 1_usize).0", m.group(1)]) and re.match(r"^Node::start_position\(.*\)\.row$", row) is not None
+        elif ok:
             rng = canon(strip(tr.operand(ex[0][1]["args"][3])))
             ok = re.match(r"^ops::Range::Range\{Node::start_position\(.*\)\.column, \(Node::start_position\(.*\)\.column AddWithOverflow Iterator::count\(", rng) is not None
             row = canon(strip(tr.operand(ex[0][1]["args"][2])))
             ok = ok and re.match(r"^Node::start_position\(.*\)\.row$", row) is not None
         rep.check(ok, "C18.D", "pretty display :: columns", f.loc(), "row = start row, columns = start column .. start column + characters on the first line", "pretty display excerpt arguments changed")
+    # the excerpt cites the position it was given: row and start column are stored as passed (only the end may be clamped to the line)
+    fs = [f for f in prog.shape_fns() if f.name == "from_source" and (f.self_path or "").endswith("parse_error::Excerpt") and f.body is not None]
+    if len(fs) != 1:
+        rep.violation("C18.D", "anchor-lost:Excerpt::from_source", "", "not found")
+    else:
+        f = fs[0]
+        body, tr = f.body, Tracer(f.body)
+        aggs = [dict(zip(st["rv"]["fields"], st["rv"]["ops"])) for b in sorted(body.reachable()) for st in body.blocks[b]["stmts"]
+                if st["k"] == "assign" and st["rv"]["k"] == "aggregate" and (st["rv"].get("adt") or "").endswith("parse_error::Excerpt")]
+        def start_kept(op):
+            v = strip(tr.operand(op))
+            if canon(v) == "arg:columns":
+                return True
+            # a new range built from the given start: `columns.start..min(columns.end, len)`
+            return v[0] == "agg" and (v[2] or "").endswith("ops::Range") and len(v[5]) == 2 and canon(strip(v[5][0])) == "arg:columns.start"
+        okx = len(aggs) >= 1 and all(canon(strip(tr.operand(a["row"]))) == "arg:row" and start_kept(a["columns"]) for a in aggs)
+        wr = sorted({x.get("name") for b, idx, st in body.field_writes() for x in st["p"].get("p", []) if x["k"] == "field" and x.get("adt") == "std::ops::Range"})
+        rep.check(okx and set(wr) <= {"end"}, "C18.D", "Excerpt::from_source :: cited position", f.loc(), "row and columns.start are stored as given; only columns.end is clamped",
+                  "the excerpt does not store the row / start column it was given (fields of the column range written: %s): the `path:line:column` header cites another position than the node's" % wr)
     # ---- E1.a
     rep.rule("E1.a", e1_panic.RULES["E1.a"] + " (parse_error.rs)")
     sites, per_rule, ctx = e1_panic.run_e1a(prog, rep, fn_filter=lambda f: f.file == "src/parse_error.rs")
